@@ -26,6 +26,7 @@ fn main() {
         "shape" => streams::stream_shape(&opt),
         "hist" => streams::stream_hist(&opt),
         "dend" => streams::stream_dend(&opt),
+        "capi" => streams::stream_capi(&opt),
         "oracle" => oracle::run(&opt),
         _ => { eprintln!("unknown command {}", cmd); 2 }
     };
